@@ -676,6 +676,14 @@ def eval_jaxpr(jaxpr, consts, args, ctx):
             outs = eval_jaxpr(sub, sconsts, ins, ctx)
         elif name == 'scan':
             outs = _eval_scan(eqn, ins, ctx)
+        elif name == 'custom_linear_solve':
+            # lax.custom_linear_solve(matvec, b, solve, transpose_solve): evaluate its `solve` jaxpr (the contract stub)
+            cl, jps = eqn.params['const_lengths'], eqn.params['jaxprs']
+            n0 = cl.matvec + cl.vecmat
+            solve_consts = ins[n0:n0 + cl.solve]
+            b = ins[cl.matvec + cl.vecmat + cl.solve + cl.transpose_solve:]
+            sj = jps.solve
+            outs = eval_jaxpr(sj.jaxpr, sj.consts, list(solve_consts) + list(b), ctx)
         elif name == 'while':
             outs = _eval_while(eqn, ins, ctx)
         elif name == 'cond':
